@@ -67,6 +67,12 @@ class AdminEnv:
         else:
             es.enter_context(TcpPatch(self.bus))
             Platform.set(Platform.SGX, {"sgx_host": "simhost", "sgx_port": 7777})
+        # one environment in four is that of an operator's shell with terminal size, locale
+        # and the like exported (pv/env.py odd_environ): no input to what the tools do
+        import random as _random
+        from . import env as _env
+        AdminEnv._n = getattr(AdminEnv, "_n", 0) + 1
+        self.odd_env = es.enter_context(_env.odd_environ(_random.Random(AdminEnv._n), 0.25)).vars
         self._wait = misc.SIGNER_WAIT_TIME
         misc.SIGNER_WAIT_TIME = 0
         self._lp = lp.HSM2ProtocolLedger.OPEN_APP_WAIT
